@@ -614,4 +614,639 @@ theorem sink_lossless_core (L : Lang) (src : List Nat) (toks : List Tok) (events
   refine ⟨k, cs, ?_, by simpa [Tree.text] using ht⟩
   simp [sink, hs, Builder.finish, hc]
 
+
+/-! ## Parser operations: the Marker / Event discipline -/
+
+
+/-- Left-to-right depth of a prefix that stays inside the root (every intermediate depth ≥ 1). -/
+def depthFold (d : Nat) : List Cls → Option Nat
+  | [] => some d
+  | c :: tl =>
+    match stepDepth d c with
+    | some d' => if d' ≥ 1 then depthFold d' tl else none
+    | none => none
+
+theorem depthFold_append : ∀ (xs ys : List Cls) (d : Nat),
+    depthFold d (xs ++ ys) = (depthFold d xs).bind fun d' => depthFold d' ys := by
+  intro xs
+  induction xs with
+  | nil => intro ys d; simp [depthFold]
+  | cons x xs ih =>
+    intro ys d
+    simp only [List.cons_append, depthFold]
+    cases stepDepth d x with
+    | none => simp
+    | some d' =>
+      by_cases h : d' ≥ 1
+      · simp [h, ih]
+      · simp [h]
+
+theorem depthFold_pos : ∀ (xs : List Cls) (d D : Nat), 1 ≤ d → depthFold d xs = some D → 1 ≤ D := by
+  intro xs
+  induction xs with
+  | nil => intro d D hd h; simp [depthFold] at h; omega
+  | cons x xs ih =>
+    intro d D hd h
+    simp only [depthFold] at h
+    cases hs : stepDepth d x with
+    | none => simp [hs] at h
+    | some d' =>
+      simp [hs] at h
+      exact ih d' D h.1 h.2
+
+/-- A prefix that stays inside the root and ends at depth 1, followed by one `Finish`, is a bracket. -/
+theorem bal_of_depthFold : ∀ (xs : List Cls) (d : Nat), depthFold d xs = some 1 →
+    bal d (xs ++ [Cls.down]) = true := by
+  intro xs
+  induction xs with
+  | nil =>
+    intro d h
+    simp [depthFold] at h
+    subst h
+    simp [bal, stepDepth]
+  | cons x xs ih =>
+    intro d h
+    simp only [depthFold] at h
+    cases hs : stepDepth d x with
+    | none => simp [hs] at h
+    | some d' =>
+      simp [hs] at h
+      simp [bal, hs, h.1, ih d' h.2]
+
+theorem dropTrivia_idem (L : Lang) : ∀ (ts : List Tok), dropTrivia L (dropTrivia L ts) = dropTrivia L ts := by
+  intro ts
+  induction ts with
+  | nil => rfl
+  | cons t ts ih =>
+    by_cases h : L.isTrivia t.kind = true
+    · simp [dropTrivia, h, ih]
+    · simp [dropTrivia, h]
+
+theorem foldl_cursor_set' (L : Lang) : ∀ (A : List Event) (j : Nat) (e e' : Event) (ts : List Tok),
+    A[j]? = some e → e.isStartOrPh = true → e'.isStartOrPh = true →
+    (A.set j e').foldl (stepCursor L) ts = A.foldl (stepCursor L) ts := by
+  intro A
+  induction A with
+  | nil => intro j e e' ts h; simp at h
+  | cons a tl ih =>
+    intro j e e' ts h he he'
+    cases j with
+    | zero =>
+      simp at h; subst h
+      cases a <;> simp [Event.isStartOrPh] at he <;>
+        cases e' <;> simp [Event.isStartOrPh] at he' <;> simp [stepCursor]
+    | succ j =>
+      simp at h
+      simp [ih _ _ _ _ h he he']
+
+theorem map_cls_true_set (A : List Event) (j : Nat) (e e' : Event) (h : A[j]? = some e)
+    (he : e.cls true = e'.cls true) :
+    (A.set j e').map (Event.cls true) = A.map (Event.cls true) := by
+  rw [List.map_set]
+  apply set_eq_self
+  simp [List.getElem?_map, h, he]
+
+theorem FpOk.append_one {A : List Event} (h : FpOk A) (e : Event)
+    (he : ∀ k d, e ≠ .start k (some d)) : FpOk (A ++ [e]) := by
+  intro i k d hi
+  by_cases hlt : i < A.length
+  · rw [List.getElem?_append_left hlt] at hi
+    obtain ⟨h1, e', h2, h3⟩ := h i k d hi
+    refine ⟨h1, e', ?_, h3⟩
+    have : i + d < A.length := (List.getElem?_eq_some_iff.1 h2).1
+    rw [List.getElem?_append_left this]
+    exact h2
+  · have hge : A.length ≤ i := by omega
+    rw [List.getElem?_append_right hge] at hi
+    cases hx : i - A.length with
+    | zero => simp [hx] at hi; exact absurd hi (he k d)
+    | succ m => simp [hx] at hi
+
+
+
+/-- Invariant tying the parser state to the ghost state of the discipline; `all` is the whole token
+list. -/
+structure PInv (L : Lang) (all : List Tok) (g : Ghost) (s : PState) : Prop where
+  depth : depthFold 0 (s.events.map (Event.cls true)) = some (1 + g.raw + g.opens.length)
+  ph : ∀ i : Nat, s.events[i]? = some Event.placeholder ↔ i ∈ g.opens
+  nodup : g.opens.Nodup
+  dones : ∀ p ∈ g.dones, p < s.events.length
+  fp : FpOk s.events
+  cur : dropTrivia L (s.events.foldl (stepCursor L) all) = dropTrivia L s.toks
+  suffix : ∃ pre, all = pre ++ s.toks
+  errs : ∀ e ∈ s.errors, e = (0, 0) ∨ ∃ t ∈ all, L.isTrivia t.kind = false ∧ e = (t.lo, t.hi)
+
+theorem depth_push {es : List Event} {D D' : Nat} (e : Event)
+    (h : depthFold 0 (es.map (Event.cls true)) = some D)
+    (hs : stepDepth D (e.cls true) = some D') (hp : 1 ≤ D') :
+    depthFold 0 ((es ++ [e]).map (Event.cls true)) = some D' := by
+  rw [List.map_append, depthFold_append, h]
+  simp [depthFold, hs, hp]
+
+theorem ph_push_ne {es : List Event} {opens : List Nat} (e : Event) (he : e ≠ .placeholder)
+    (h : ∀ i : Nat, es[i]? = some Event.placeholder ↔ i ∈ opens) :
+    ∀ i : Nat, (es ++ [e])[i]? = some Event.placeholder ↔ i ∈ opens := by
+  intro i
+  by_cases hlt : i < es.length
+  · rw [List.getElem?_append_left hlt]; exact h i
+  · have hge : es.length ≤ i := by omega
+    rw [List.getElem?_append_right hge]
+    constructor
+    · intro hx
+      cases hm : i - es.length with
+      | zero => simp [hm] at hx; exact absurd hx he
+      | succ m => simp [hm] at hx
+    · intro hx
+      have := (h i).2 hx
+      have := (List.getElem?_eq_some_iff.1 this).1
+      omega
+
+theorem ph_push_ph {es : List Event} {opens : List Nat}
+    (h : ∀ i : Nat, es[i]? = some Event.placeholder ↔ i ∈ opens) :
+    ∀ i : Nat, (es ++ [Event.placeholder])[i]? = some Event.placeholder ↔ i ∈ es.length :: opens := by
+  intro i
+  by_cases hlt : i < es.length
+  · rw [List.getElem?_append_left hlt]
+    simp only [List.mem_cons]
+    constructor
+    · intro hx; exact Or.inr ((h i).1 hx)
+    · intro hx
+      rcases hx with hx | hx
+      · omega
+      · exact (h i).2 hx
+  · have hge : es.length ≤ i := by omega
+    rw [List.getElem?_append_right hge]
+    simp only [List.mem_cons]
+    constructor
+    · intro hx
+      cases hm : i - es.length with
+      | zero => left; omega
+      | succ m => simp [hm] at hx
+    · intro hx
+      rcases hx with hx | hx
+      · subst hx; simp
+      · have := (h i).2 hx
+        have := (List.getElem?_eq_some_iff.1 this).1
+        omega
+
+theorem opens_lt {es : List Event} {opens : List Nat}
+    (h : ∀ i : Nat, es[i]? = some Event.placeholder ↔ i ∈ opens) : ∀ p ∈ opens, p < es.length := by
+  intro p hp
+  exact (List.getElem?_eq_some_iff.1 ((h p).2 hp)).1
+
+
+
+theorem FpOk.set_start {es : List Event} (h : FpOk es) {cur k : Nat} {fp0 : Option Nat} (fp : Option Nat)
+    (hc : es[cur]? = some (.start k fp0))
+    (hfp : ∀ d, fp = some d → d ≥ 1 ∧ ∃ e, es[cur + d]? = some e ∧ e.isStartOrPh = true) :
+    FpOk (es.set cur (.start k fp)) := by
+  have hlt : cur < es.length := (List.getElem?_eq_some_iff.1 hc).1
+  have tgt : ∀ (j : Nat) (e : Event), es[j]? = some e → e.isStartOrPh = true →
+      ∃ e' : Event, (es.set cur (.start k fp))[j]? = some e' ∧ e'.isStartOrPh = true := by
+    intro j e hj he
+    by_cases hjc : cur = j
+    · subst hjc
+      exact ⟨.start k fp, by rw [List.getElem?_set]; simp [hlt], rfl⟩
+    · exact ⟨e, by rw [List.getElem?_set_ne hjc]; exact hj, he⟩
+  intro i k' d hi
+  by_cases hic : cur = i
+  · subst hic
+    rw [List.getElem?_set] at hi
+    simp [hlt] at hi
+    obtain ⟨h1, e, h2, h3⟩ := hfp d hi.2
+    exact ⟨h1, tgt _ e h2 h3⟩
+  · rw [List.getElem?_set_ne hic] at hi
+    obtain ⟨h1, e, h2, h3⟩ := h i k' d hi
+    exact ⟨h1, tgt _ e h2 h3⟩
+
+theorem ph_set_start {es : List Event} {cur k : Nat} {fp0 : Option Nat} (fp : Option Nat)
+    (hc : es[cur]? = some (.start k fp0)) :
+    ∀ i : Nat, (es.set cur (.start k fp))[i]? = some Event.placeholder ↔ es[i]? = some Event.placeholder := by
+  intro i
+  have hlt : cur < es.length := (List.getElem?_eq_some_iff.1 hc).1
+  by_cases hic : cur = i
+  · subst hic
+    rw [List.getElem?_set, hc]
+    simp [hlt]
+  · rw [List.getElem?_set_ne hic]
+
+theorem setFp_spec (L : Lang) : ∀ (f : Nat) (es : List Event) (cur to : Nat),
+    FpOk es → cur < es.length → es.length ≤ f + cur → to + 1 = es.length →
+    es[to]? = some Event.placeholder →
+    ∃ es', setForwardParent f es cur to = .ok es' ∧ es'.length = es.length ∧ FpOk es' ∧
+      es'.map (Event.cls true) = es.map (Event.cls true) ∧
+      (∀ i : Nat, es'[i]? = some Event.placeholder ↔ es[i]? = some Event.placeholder) ∧
+      (∀ ts, es'.foldl (stepCursor L) ts = es.foldl (stepCursor L) ts) := by
+  intro f
+  induction f with
+  | zero => intro es cur to _ h1 h2; omega
+  | succ f ih =>
+    intro es cur to hok hlt hfu hto hph
+    have hc : es[cur]? = some es[cur] := List.getElem?_eq_getElem hlt
+    cases he : es[cur] with
+    | token k n =>
+      rw [he] at hc
+      exact ⟨es, by simp [setForwardParent, hc], rfl, hok, rfl, fun _ => Iff.rfl, fun _ => rfl⟩
+    | finish =>
+      rw [he] at hc
+      exact ⟨es, by simp [setForwardParent, hc], rfl, hok, rfl, fun _ => Iff.rfl, fun _ => rfl⟩
+    | placeholder =>
+      rw [he] at hc
+      exact ⟨es, by simp [setForwardParent, hc], rfl, hok, rfl, fun _ => Iff.rfl, fun _ => rfl⟩
+    | start k fp =>
+      rw [he] at hc
+      cases fp with
+      | some d =>
+        obtain ⟨h1, e, h2, _⟩ := hok cur k d hc
+        have hlt2 : cur + d < es.length := (List.getElem?_eq_some_iff.1 h2).1
+        obtain ⟨es', r1, r2, r3, r4, r5, r6⟩ := ih es (cur + d) to hok hlt2 (by omega) hto hph
+        exact ⟨es', by simp [setForwardParent, hc, r1], r2, r3, r4, r5, r6⟩
+      | none =>
+        have hne : cur ≠ to := by
+          intro h; subst h; rw [hc] at hph; simp at hph
+        have hle : cur ≤ to := by omega
+        refine ⟨es.set cur (.start k (some (to - cur))), by simp [setForwardParent, hc, hle], by simp, ?_, ?_,
+          ph_set_start _ hc, ?_⟩
+        · apply hok.set_start _ hc
+          intro d hd
+          simp at hd
+          subst hd
+          refine ⟨by omega, .placeholder, ?_, rfl⟩
+          have : cur + (to - cur) = to := by omega
+          rw [this]; exact hph
+        · exact map_cls_true_set es cur _ _ hc rfl
+        · intro ts
+          exact foldl_cursor_set' L es cur _ _ ts hc rfl rfl
+
+
+
+theorem FpOk.set_nofp {es : List Event} (h : FpOk es) (p k : Nat) :
+    FpOk (es.set p (.start k none)) := by
+  intro i k' d hi
+  by_cases hip : p = i
+  · subst hip
+    rw [List.getElem?_set] at hi
+    split at hi
+    · split at hi <;> simp at hi
+    · contradiction
+  · rw [List.getElem?_set_ne hip] at hi
+    obtain ⟨h1, e, h2, h3⟩ := h i k' d hi
+    refine ⟨h1, ?_⟩
+    by_cases hpt : p = i + d
+    · subst hpt
+      have : i + d < es.length := (List.getElem?_eq_some_iff.1 h2).1
+      exact ⟨.start k none, by rw [List.getElem?_set]; simp [this], rfl⟩
+    · exact ⟨e, by rw [List.getElem?_set_ne hpt]; exact h2, h3⟩
+
+theorem dropTrivia_suffix (L : Lang) : ∀ ts : List Tok, ∃ pre, ts = pre ++ dropTrivia L ts := by
+  intro ts
+  induction ts with
+  | nil => exact ⟨[], rfl⟩
+  | cons t ts ih =>
+    by_cases h : L.isTrivia t.kind = true
+    · obtain ⟨pre, hp⟩ := ih
+      exact ⟨t :: pre, by simp [dropTrivia, h]; exact hp⟩
+    · exact ⟨[], by simp [dropTrivia, h]⟩
+
+theorem dropTrivia_head (L : Lang) : ∀ (ts : List Tok) (t : Tok) (r : List Tok),
+    dropTrivia L ts = t :: r → L.isTrivia t.kind = false := by
+  intro ts
+  induction ts with
+  | nil => intro t r h; simp [dropTrivia] at h
+  | cons a ts ih =>
+    intro t r h
+    by_cases ha : L.isTrivia a.kind = true
+    · simp [dropTrivia, ha] at h; exact ih t r h
+    · simp [dropTrivia, ha] at h
+      rw [← h.1]; simpa using ha
+
+theorem step_inv (L : Lang) (all : List Tok) : ∀ (op : POp) (rest : List POp) (g : Ghost) (s : PState) (n : Nat),
+    PInv L all g s → n = s.events.length → disc g n (op :: rest) = true →
+    ∃ s' g', step L s op = .ok s' ∧ PInv L all g' s' ∧ disc g' s'.events.length rest = true := by
+  intro op rest g s n hI hn hd
+  subst hn
+  have hD1 : 1 ≤ 1 + g.raw + g.opens.length := by omega
+  cases op with
+  | start =>
+    simp only [disc] at hd
+    refine ⟨{ s with events := s.events ++ [.placeholder] }, { g with opens := s.events.length :: g.opens },
+      rfl, ?_, by simpa using hd⟩
+    exact {
+      depth := by
+        have h := depth_push Event.placeholder hI.depth (D' := 1 + g.raw + g.opens.length + 1)
+          (by simp [stepDepth, Event.cls]) (by omega)
+        rw [h]; simp; omega
+      ph := ph_push_ph hI.ph
+      nodup := by
+        refine List.nodup_cons.2 ⟨?_, hI.nodup⟩
+        intro h; have := opens_lt hI.ph _ h; omega
+      dones := by intro p hp; have := hI.dones p hp; simp; omega
+      fp := hI.fp.append_one _ (by intro k d h; cases h)
+      cur := by simpa [List.foldl_append, stepCursor] using hI.cur
+      suffix := hI.suffix
+      errs := hI.errs }
+  | complete p k =>
+    simp only [disc, Bool.and_eq_true, List.contains_iff_mem] at hd
+    obtain ⟨hp, hd⟩ := hd
+    have hph := (hI.ph p).2 hp
+    have hplt : p < s.events.length := (List.getElem?_eq_some_iff.1 hph).1
+    have hlen : 1 ≤ g.opens.length := List.length_pos_of_mem hp
+    refine ⟨{ s with events := s.events.set p (.start k none) ++ [.finish] },
+      { g with opens := g.opens.erase p, dones := p :: g.dones }, by simp [step, hph], ?_, by simpa using hd⟩
+    exact {
+      depth := by
+        have h0 : depthFold 0 ((s.events.set p (.start k none)).map (Event.cls true)) =
+            some (1 + g.raw + g.opens.length) := by
+          rw [map_cls_true_set s.events p .placeholder (.start k none) hph rfl]; exact hI.depth
+        have h := depth_push Event.finish h0 (D' := 1 + g.raw + g.opens.length - 1)
+          (by simp [stepDepth, Event.cls]) (by omega)
+        rw [h]; simp [List.length_erase_of_mem hp]; omega
+      ph := by
+        apply ph_push_ne _ (by intro h; cases h)
+        intro i
+        simp only [hI.nodup.mem_erase_iff]
+        by_cases hip : p = i
+        · subst hip
+          rw [List.getElem?_set]; simp [hplt]
+        · rw [List.getElem?_set_ne hip, hI.ph i]
+          constructor
+          · intro h; exact ⟨fun e => hip e.symm, h⟩
+          · intro h; exact h.2
+      nodup := hI.nodup.erase p
+      dones := by
+        intro q hq
+        simp at hq ⊢
+        rcases hq with hq | hq
+        · omega
+        · have := hI.dones q hq; omega
+      fp := (hI.fp.set_nofp p k).append_one _ (by intro k d h; cases h)
+      cur := by
+        simp only [List.foldl_append, List.foldl_cons, List.foldl_nil, stepCursor]
+        rw [foldl_cursor_set' L _ _ _ _ _ hph rfl rfl, dropTrivia_idem]
+        exact hI.cur
+      suffix := hI.suffix
+      errs := hI.errs }
+  | precede p =>
+    simp only [disc, Bool.and_eq_true, List.contains_iff_mem] at hd
+    obtain ⟨hp, hd⟩ := hd
+    have hplt := hI.dones p hp
+    have hok0 : FpOk (s.events ++ [Event.placeholder]) := hI.fp.append_one _ (by intro k d h; cases h)
+    obtain ⟨es', r1, r2, r3, r4, r5, r6⟩ :=
+      setFp_spec L (s.events.length + 1) (s.events ++ [Event.placeholder]) p s.events.length
+        hok0 (by simp; omega) (by simp) (by simp) (by simp)
+    refine ⟨{ s with events := es' }, { g with opens := s.events.length :: g.opens },
+      by simp [step, r1], ?_, by simpa [r2] using hd⟩
+    exact {
+      depth := by
+        show depthFold 0 (es'.map (Event.cls true)) = _
+        rw [r4]
+        have h := depth_push Event.placeholder hI.depth (D' := 1 + g.raw + g.opens.length + 1)
+          (by simp [stepDepth, Event.cls]) (by omega)
+        rw [h]; simp; omega
+      ph := by
+        intro i
+        show es'[i]? = some Event.placeholder ↔ _
+        rw [r5 i]; exact ph_push_ph hI.ph i
+      nodup := by
+        refine List.nodup_cons.2 ⟨?_, hI.nodup⟩
+        intro h; have := opens_lt hI.ph _ h; omega
+      dones := by
+        intro q hq; have := hI.dones q hq
+        show q < es'.length
+        rw [r2]; simp; omega
+      fp := r3
+      cur := by
+        show dropTrivia L (es'.foldl (stepCursor L) all) = _
+        rw [r6]
+        simpa [List.foldl_append, stepCursor] using hI.cur
+      suffix := hI.suffix
+      errs := hI.errs }
+  | bump =>
+    simp only [disc] at hd
+    refine ⟨{ s with events := s.events ++ [.token (L.toSyntax (currentKind L s)) 1], toks := sourceBump L s.toks },
+      g, rfl, ?_, by simpa using hd⟩
+    exact {
+      depth := depth_push _ hI.depth (by simp [stepDepth, Event.cls]) hD1
+      ph := ph_push_ne _ (by intro h; cases h) hI.ph
+      nodup := hI.nodup
+      dones := by intro p hp; have := hI.dones p hp; simp; omega
+      fp := hI.fp.append_one _ (by intro k d h; cases h)
+      cur := by
+        simp only [List.foldl_append, List.foldl_cons, List.foldl_nil, stepCursor, sourceBump]
+        rw [hI.cur]
+      suffix := by
+        obtain ⟨pre, hpre⟩ := hI.suffix
+        obtain ⟨pre2, hpre2⟩ := dropTrivia_suffix L s.toks
+        refine ⟨pre ++ pre2 ++ (dropTrivia L s.toks).take 1, ?_⟩
+        simp only [sourceBump, List.append_assoc, List.take_append_drop]
+        rw [← hpre2]; exact hpre
+      errs := hI.errs }
+  | startNode k =>
+    simp only [disc] at hd
+    refine ⟨{ s with events := s.events ++ [.start k none] }, { g with raw := g.raw + 1 }, rfl, ?_, by simpa using hd⟩
+    exact {
+      depth := by
+        have h := depth_push (Event.start k none) hI.depth (D' := 1 + g.raw + g.opens.length + 1)
+          (by simp [stepDepth, Event.cls]) (by omega)
+        rw [h]; simp; omega
+      ph := ph_push_ne _ (by intro h; cases h) hI.ph
+      nodup := hI.nodup
+      dones := by intro p hp; have := hI.dones p hp; simp; omega
+      fp := hI.fp.append_one _ (by intro k d h; cases h)
+      cur := by simpa [List.foldl_append, stepCursor] using hI.cur
+      suffix := hI.suffix
+      errs := hI.errs }
+  | finishNode =>
+    simp only [disc, Bool.and_eq_true, decide_eq_true_eq] at hd
+    obtain ⟨hr, hd⟩ := hd
+    refine ⟨{ s with events := s.events ++ [.finish] }, { g with raw := g.raw - 1 }, rfl, ?_, by simpa using hd⟩
+    exact {
+      depth := by
+        have h := depth_push Event.finish hI.depth (D' := 1 + g.raw + g.opens.length - 1)
+          (by simp [stepDepth, Event.cls]) (by omega)
+        rw [h]; simp; omega
+      ph := ph_push_ne _ (by intro h; cases h) hI.ph
+      nodup := hI.nodup
+      dones := by intro p hp; have := hI.dones p hp; simp; omega
+      fp := hI.fp.append_one _ (by intro k d h; cases h)
+      cur := by
+        simp only [List.foldl_append, List.foldl_cons, List.foldl_nil, stepCursor]
+        rw [dropTrivia_idem]; exact hI.cur
+      suffix := hI.suffix
+      errs := hI.errs }
+  | error =>
+    simp only [disc] at hd
+    refine ⟨{ s with errors := s.errors ++ [errorRange L s] }, g, rfl, ?_, hd⟩
+    exact {
+      depth := hI.depth
+      ph := hI.ph
+      nodup := hI.nodup
+      dones := hI.dones
+      fp := hI.fp
+      cur := hI.cur
+      suffix := hI.suffix
+      errs := by
+        intro e he
+        simp only [List.mem_append, List.mem_singleton] at he
+        rcases he with he | he
+        · exact hI.errs e he
+        · subst he
+          unfold errorRange
+          cases hdt : dropTrivia L s.toks with
+          | nil => left; rfl
+          | cons t r =>
+            right
+            refine ⟨t, ?_, dropTrivia_head L _ _ _ hdt, rfl⟩
+            obtain ⟨pre, hpre⟩ := hI.suffix
+            obtain ⟨pre2, hpre2⟩ := dropTrivia_suffix L s.toks
+            rw [hpre, hpre2, hdt]
+            simp }
+
+
+
+theorem fpOkFrom_complete (A : List Event) : ∀ (l : List Event) (i : Nat),
+    (∀ j k d, l[j]? = some (.start k (some d)) →
+      d ≥ 1 ∧ ∃ e, A[i + j + d]? = some e ∧ e.isStartOrPh = true) → fpOkFrom A i l = true := by
+  intro l
+  induction l with
+  | nil => intro i _; rfl
+  | cons e tl ih =>
+    intro i h
+    simp only [fpOkFrom, Bool.and_eq_true]
+    constructor
+    · cases e with
+      | start k fp =>
+        cases fp with
+        | none => rfl
+        | some d =>
+          obtain ⟨h1, e', h2, h3⟩ := h 0 k d (by simp)
+          simp at h2
+          simp [fpOkAt, h1, h2, h3]
+      | token k n => rfl
+      | finish => rfl
+      | placeholder => rfl
+    · apply ih
+      intro j k d hj
+      have := h (j + 1) k d (by simpa using hj)
+      have e : i + (j + 1) + d = i + 1 + j + d := by omega
+      rw [e] at this
+      exact this
+
+theorem fpOk_complete (A : List Event) (h : FpOk A) : fpOk A = true := by
+  apply fpOkFrom_complete
+  intro j k d hj
+  simpa using h j k d hj
+
+theorem run_append (L : Lang) : ∀ (a b : List POp) (s : PState),
+    run L s (a ++ b) = (run L s a).bind fun s' => run L s' b := by
+  intro a
+  induction a with
+  | nil => intro b s; simp [run]
+  | cons op a ih =>
+    intro b s
+    simp only [List.cons_append, run]
+    cases step L s op with
+    | ok s' => simp [ih]
+    | panic => rfl
+    | diverge => rfl
+
+theorem run_inv (L : Lang) (all : List Tok) : ∀ (ops : List POp) (g : Ghost) (s : PState),
+    PInv L all g s → disc g s.events.length ops = true →
+    ∃ s' g', run L s ops = .ok s' ∧ PInv L all g' s' ∧ g'.opens = [] ∧ g'.raw = 0 := by
+  intro ops
+  induction ops with
+  | nil =>
+    intro g s hI hd
+    simp [disc] at hd
+    exact ⟨s, g, rfl, hI, hd.1, hd.2⟩
+  | cons op rest ih =>
+    intro g s hI hd
+    obtain ⟨s1, g1, e1, hI1, hd1⟩ := step_inv L all op rest g s _ hI rfl hd
+    obtain ⟨s2, g2, e2, hI2, h2⟩ := ih g1 s1 hI1 hd1
+    exact ⟨s2, g2, by simp [run, e1, e2], hI2, h2⟩
+
+theorem map_cls_no_ph (es : List Event) (h : ∀ i : Nat, es[i]? ≠ some Event.placeholder) :
+    es.map (Event.cls false) = es.map (Event.cls true) := by
+  apply List.map_congr_left
+  intro e he
+  cases e with
+  | placeholder =>
+    obtain ⟨i, hi⟩ := List.getElem?_of_mem he
+    exact absurd hi (h i)
+  | start k fp => rfl
+  | token k n => rfl
+  | finish => rfl
+
+/-- Every disciplined run of the parser produces an event stream that satisfies the premises of the
+sink theorem (and records only error ranges that are token ranges or `0..0`). -/
+theorem parser_events_ok_core (L : Lang) (toks : List Tok) (root : Nat) (body : List POp)
+    (hD : Disciplined body) :
+    ∃ s, run L (PState.init toks) (parseOps root body) = .ok s ∧
+      eventsBalanced s.events = true ∧ fpOk s.events = true ∧
+      (noEof L toks = true → atEnd L s = true → consumesAll L toks s.events = true) ∧
+      (∀ e ∈ s.errors, e = (0, 0) ∨ ∃ t ∈ toks, L.isTrivia t.kind = false ∧ e = (t.lo, t.hi)) := by
+  have hI1 : PInv L toks ⟨[], [], 0⟩ ⟨[.start root none], toks, []⟩ := {
+    depth := by simp [depthFold, stepDepth, Event.cls]
+    ph := by
+      intro i
+      cases i <;> simp
+    nodup := List.nodup_nil
+    dones := by intro p hp; simp at hp
+    fp := by
+      intro i k d hi
+      cases i <;> simp at hi
+    cur := by simp [stepCursor]
+    suffix := ⟨[], rfl⟩
+    errs := by intro e he; simp at he }
+  obtain ⟨s2, g2, e2, hI2, ho, hr⟩ := run_inv L toks body ⟨[], [], 0⟩ ⟨[.start root none], toks, []⟩ hI1 hD
+  refine ⟨{ s2 with events := s2.events ++ [.finish] }, ?_, ?_, ?_, ?_, hI2.errs⟩
+  · simp only [parseOps, PState.init]
+    rw [run_append]
+    simp only [run, step, List.nil_append, Res.bind_ok]
+    rw [e2]
+    simp
+  · have hnoph : ∀ i : Nat, s2.events[i]? ≠ some Event.placeholder := by
+      intro i h
+      have := (hI2.ph i).1 h
+      rw [ho] at this
+      simp at this
+    have hdep := hI2.depth
+    rw [ho, hr, ← map_cls_no_ph _ hnoph] at hdep
+    simp only [eventsBalanced, Bool.and_eq_true]
+    refine ⟨by simp, ?_⟩
+    rw [List.map_append]
+    exact bal_of_depthFold _ 0 hdep
+  · exact fpOk_complete _ (hI2.fp.append_one _ (by intro k d h; cases h))
+  · intro hne hat
+    simp only [consumesAll, List.foldl_append, List.foldl_cons, List.foldl_nil, stepCursor]
+    rw [hI2.cur]
+    simp only [atEnd, currentKind] at hat
+    cases hdt : dropTrivia L s2.toks with
+    | nil => rfl
+    | cons t r =>
+      simp [hdt] at hat
+      obtain ⟨pre, hpre⟩ := hI2.suffix
+      obtain ⟨pre2, hpre2⟩ := dropTrivia_suffix L s2.toks
+      have hmem : t ∈ toks := by rw [hpre, hpre2, hdt]; simp
+      simp only [noEof, List.all_eq_true] at hne
+      have := hne t hmem
+      simp [hat] at this
+
+
+
+theorem tiles_mem_bounds : ∀ (ts : List Tok) (a b : Nat) (t : Tok), tiles ts a b = true → t ∈ ts →
+    a ≤ t.lo ∧ t.lo < t.hi ∧ t.hi ≤ b := by
+  intro ts
+  induction ts with
+  | nil => intro a b t _ h; simp at h
+  | cons x xs ih =>
+    intro a b t h hm
+    simp [tiles] at h
+    obtain ⟨⟨h1, h2⟩, h3⟩ := h
+    have hle := tiles_le _ _ _ h3
+    simp only [List.mem_cons] at hm
+    rcases hm with hm | hm
+    · subst hm; omega
+    · have := ih _ _ t h3 hm; omega
+
 end TrustVerif.C12
